@@ -9,6 +9,7 @@ import (
 	"github.com/mimecast/dtail/internal/lcontext"
 	"github.com/mimecast/dtail/internal/source"
 	"github.com/mimecast/dtail/verif/explore"
+	"github.com/mimecast/dtail/verif/vos"
 	"github.com/mimecast/dtail/verif/vrt"
 )
 
@@ -26,10 +27,13 @@ type c02Params struct {
 	Max     int // grep: --max
 	After   int // grep: --after
 	D       int // deviation bound of this scenario (0 = tier default)
+	// ReadDelayMs makes every read(2) of the files take that long (virtual time): the session then
+	// spans dtail's timers (1 s read poll of the transport, 3 s truncation check, 5 s time-outs)
+	ReadDelayMs int
 }
 
 func (p c02Params) String() string {
-	return fmt.Sprintf("%s files=%v glob=%v catlimit=%d stall=%v@%d max=%d after=%d", p.Kind, p.Files, p.Glob, p.CatLimit, p.Stall, p.StallAt, p.Max, p.After)
+	return fmt.Sprintf("%s files=%v glob=%v catlimit=%d stall=%v@%d max=%d after=%d readdelay=%dms", p.Kind, p.Files, p.Glob, p.CatLimit, p.Stall, p.StallAt, p.Max, p.After, p.ReadDelayMs)
 }
 
 func c02FileLines(f, n int) []string {
@@ -63,7 +67,13 @@ func c02Body(p c02Params, paths []string, dir string) (string, string) {
 		args.RegexStr = "M"
 		args.LContext = lcontext.LContext{MaxCount: p.Max, AfterContext: p.After}
 	}
-	o := ClientOpts{Kind: p.Kind, Args: args, Mutate: func() { config.Server.MaxConcurrentCats = p.CatLimit }}
+	o := ClientOpts{Kind: p.Kind, Args: args, Mutate: func() {
+		config.Server.MaxConcurrentCats = p.CatLimit
+		if p.ReadDelayMs > 0 {
+			vos.S.ReadDelay = time.Duration(p.ReadDelayMs) * time.Millisecond
+			vos.S.ReadDelayPrefix = Scratch() + "/c02/"
+		}
+	}}
 	if p.Stall > 0 {
 		o.PipeCap = 0
 		o.Consumer = func(pipe *vrt.Chan[string], sink *vrt.StdoutSink) {
@@ -274,6 +284,9 @@ func c02ParamSets(tier string) (ps []c02Params, d int) {
 			{Kind: "grep", Files: []int{3}, CatLimit: 2, Max: 1, After: 1},
 			{Kind: "cat", Files: []int{2}, CatLimit: 2, Stall: 150 * time.Millisecond, StallAt: 2},
 			{Kind: "cat", Files: []int{3}, CatLimit: 2, Stall: 12 * time.Second, StallAt: 2, D: 1},
+			{Kind: "cat", Files: []int{2}, CatLimit: 2, ReadDelayMs: 1100, D: 1},
+			{Kind: "cat", Files: []int{1, 2}, Glob: true, CatLimit: 1, ReadDelayMs: 3100, D: 1},
+			{Kind: "grep", Files: []int{3}, CatLimit: 2, Max: 2, After: 1, ReadDelayMs: 5200, D: 1},
 			{Kind: "cat", Files: []int{3}, CatLimit: 2, Stall: 61 * time.Second, StallAt: 3, D: 1},
 		}, 2
 	}
